@@ -900,7 +900,7 @@ class Interp:
         kwargs = dict(kwargs or {})
         for p in self.prog.new_passed_params(f"{owner.qualname}.{name}", fn):
             kwargs.setdefault(p, ("sym", "NEW_" + p.upper()))
-        return self.apply_def(fn, Env(), ctx, [self_term] + list(args), kwargs)
+        return self.apply_method(fn, ctx, [self_term] + list(args), kwargs)
 
     def eval_function(self, qual: str, args, kwargs=None):
         m, fn = self.prog.func(qual)
@@ -987,6 +987,36 @@ class Interp:
             return self.eval(node, Env(), ctx)
         except AnalysisError:
             return ("unknown", "default")
+
+    _TRANSPARENT_DECOS = ("property", "abstractmethod", "abc.abstractmethod", "staticmethod", "classmethod", "override",
+                          "typing.override", "eqx.filter_jit", "jax.jit", "jit", "functools.cache", "cache",
+                          "functools.cached_property", "cached_property")
+    _TRANSPARENT_DECO_PREFIX = ("partial(jit", "functools.partial(jit", "partial(jax.jit", "functools.partial(jax.jit",
+                                "wraps(", "functools.wraps(", "lru_cache", "functools.lru_cache")
+
+    def _transforming_decorators(self, fn):
+        out = []
+        for dec in getattr(fn, "decorator_list", []):
+            d = ast.unparse(dec).replace(" ", "")
+            if d in self._TRANSPARENT_DECOS or d.startswith(self._TRANSPARENT_DECO_PREFIX) or d.endswith((".setter", ".getter")):
+                continue
+            out.append(dec)
+        return out
+
+    def apply_method(self, fn, ctx, args, kwargs):
+        """Apply a method definition to [self, *args]; a decorator that is not a compilation / descriptor marker
+        is applied to the function value first (it may change arguments or results)."""
+        decs = self._transforming_decorators(fn)
+        if not decs:
+            return self.apply_def(fn, Env(), ctx, args, kwargs)
+        plain = ast.FunctionDef(name=fn.name, args=fn.args, body=fn.body, decorator_list=[], returns=fn.returns,
+                                type_comment=None, lineno=fn.lineno, col_offset=fn.col_offset)
+        val = Closure(plain, Env(), ctx, fn.name)
+        mctx = (ctx[0], None, None)
+        for dec in reversed(decs):
+            d = self.eval(dec, Env(), mctx)
+            val = self.call(d, [val], {}, mctx)
+        return self.call(val, list(args), kwargs, ctx)
 
     def apply_def(self, fn, closure_env: Env, ctx, args, kwargs):
         if self.inline_depth > MAX_INLINE:
@@ -1797,8 +1827,8 @@ class Interp:
                     and f.name not in f.owner.abstract:
                 self.stack.append(qn)
                 try:
-                    return self.apply_def(f.fn, Env(), (f.owner.module, f.cls, f.self_term),
-                                          [f.self_term] + list(args), kwargs)
+                    return self.apply_method(f.fn, (f.owner.module, f.cls, f.self_term),
+                                             [f.self_term] + list(args), kwargs)
                 finally:
                     self.stack.pop()
             f = self.reify(f)
@@ -1806,6 +1836,9 @@ class Interp:
             kw = dict(f.kwargs)
             kw.update(kwargs)
             return self.call(f.fn, list(f.args) + list(args), kw, ctx, node)
+        if f[0] == "lam" and not kwargs and not opaque_args and f[1] == len(args) and \
+                all(isinstance(a, tuple) for a in args):
+            return self.beta(f, list(args))
         if f[0] == "ext":
             q = f[1]
             if q == "functools.reduce" and len(args) in (2, 3) and not kwargs and not opaque_args:
@@ -1891,8 +1924,8 @@ class Interp:
                     if name not in owner.abstract:
                         self.stack.append(qn)
                         try:
-                            return self.apply_def(fn, Env(), (owner.module, ctx[1], ctx[2]),
-                                                  [obj] + list(args), kwargs)
+                            return self.apply_method(fn, (owner.module, ctx[1], ctx[2]),
+                                                     [obj] + list(args), kwargs)
                         finally:
                             self.stack.pop()
             # x.at[idx].set(v)
